@@ -19,6 +19,8 @@ const (
 
 func c05(c *Ctx) {
 	r := c.R
+	r.Rule("PATH(tombstone): the delete handler treats a cache.DeletedFinalStateUnknown (delivered by value) like the object inside it: both reach the release, and no assertion to the pointer type exists")
+	c.Tombstone("PATH", resvPkg, "podEventHandler", "OnDelete", "deletePod")
 	r.Decides("AddAssignedPod and RemoveAssignedPod update the same ledgers (Allocated, AssignedPods) with dual operations on the same masked amount, and recompute the derived figures; only the listed functions assign Allocated, the updaters only by masking it")
 	r.Decides("deleting a reservation from the primary map deletes its uid from all three node indexes before returning; a uid enters the matchable index only for a matchable reservation and the allocated index only for a matchable reservation with assigned pods; the three refresh blocks agree")
 	r.Decides("a restricted reservation is reported fitting only through fitsReservation returning no reason; in fitsReservation every reserved, requested, non-ignored dimension reaches the comparison, and the non-negative clamp of the used amount comes after the preemptible credit")
